@@ -142,6 +142,10 @@ found:
 			intvs[iv] = c.Begin
 		}
 		ref.Intervals = intvs
+		// The linear index has grown, possibly over tiles that no
+		// record lies in: it is no longer in the order that sort
+		// establishes and that a reader of the written index restores.
+		i.IsSorted = false
 	}
 
 	// Record index stats.
